@@ -182,6 +182,15 @@ def _work_handles():
 
     yield "handle:vmtar:plain", (lambda: vmtar_(tar)), False
     yield "handle:vmtar:gzip", (lambda: vmtar_(gzip.compress(tar))), False
+    # compressed archives that inflate to more than 32 / 64 MiB (sizes at which buffering layers start to spill to disk)
+    import bz2
+    import lzma
+
+    bigtar, _ = BT.build([("d/", "vdir", b""), ("d/big", "visor", b"\0" * ((70 << 20) + 5)), ("d/u", "ustar", b"U" * 700)], 512)
+    for cname, comp in (("gzip", lambda b: gzip.compress(b, 1)), ("xz", lambda b: lzma.compress(b, preset=0)), ("bz2", lambda b: bz2.compress(b, 1))):
+        packed = comp(bigtar)
+        yield f"handle:vmtar:{cname}-inflating-70MiB", (lambda packed=packed: vmtar_(packed)), False
+    del bigtar
     dk = BVX.det_bytes("dk", 32)
     pair, _ = BVX.pair_text("pw", "PBKDF2-HMAC-SHA-1", "AES-256", 1, BVX.det_bytes("s", 16), "HMAC-SHA-1", "AES-256", dk, BVX.det_bytes("iv", 16))
     vt = BVX.vmx_text([pair], BVX.seal(dk, b'scsi0:0.fileName = "a.vmdk"', "HMAC-SHA-1", BVX.det_bytes("i2", 16)))
@@ -272,6 +281,21 @@ def _populate(d):
         f.write(BH.descriptor_xml(24, [(0, 24, [(g0, "Compressed", f"d.0.{g0}.hds"), (BH.DEFAULT_TOP, "Compressed", f"d.0.{BH.DEFAULT_TOP}.hds")])],
                                   [(g0, BH.NULL_GUID), (BH.DEFAULT_TOP, g0)]))
     open(os.path.join(hd, "disk.hdd"), "wb").close()
+    # Plain storages of 1 GiB + 4 KiB and 4 GiB + 4 KiB (sparse files) next to a small compressed one
+    hp = os.path.join(vm, "bigplain.hdd")
+    os.makedirs(hp)
+    sizes = [(1 << 21) + 8, (1 << 23) + 8]
+    stor, pos = [], 0
+    for n, sec in enumerate(sizes):
+        with open(os.path.join(hp, f"p{n}.hds"), "wb") as f:
+            f.write(b"plain-storage-%d" % n)
+            f.truncate(sec * 512)
+        stor.append((pos, pos + sec, [(BH.DEFAULT_TOP, "Plain", f"p{n}.hds")]))
+        pos += sec
+    BH.build_hds([DATA, HOLE, DATA], [1, None, 2], 8, 2, 24, layer=1).write_to(os.path.join(hp, "c.hds"))
+    stor.append((pos, pos + 24, [(BH.DEFAULT_TOP, "Compressed", "c.hds")]))
+    with open(os.path.join(hp, "DiskDescriptor.xml"), "w") as f:
+        f.write(BH.descriptor_xml(pos + 24, stor, [(BH.DEFAULT_TOP, BH.NULL_GUID)]))
     bad = os.path.join(vm, "nodesc.hdd")
     os.makedirs(bad)
     bad2 = os.path.join(vm, "badtype.hdd")
@@ -358,6 +382,20 @@ def _work_paths(vm, g0):
     yield "path:hdd:dir", (lambda: hdd(Path(vm) / "disk.hdd")), False
     yield "path:hdd:file-in-dir", (lambda: hdd(Path(vm) / "disk.hdd" / "disk.hdd")), False
     yield "path:hdd:guid", (lambda: hdd(Path(vm) / "disk.hdd", g0)), False
+
+    def hdd_big():
+        from dissect.hypervisor.disk.hdd import HDD
+
+        s = HDD(Path(vm) / "bigplain.hdd").open()
+        try:
+            for off in (0, (1 << 30) - 100, (1 << 30) + 4096 - 50, (5 << 30) + 8192 - 10):
+                s.seek(off)
+                s.read(700)
+        finally:
+            for _, x in s.streams:
+                closing([getattr(x, "fh", x)])
+
+    yield "path:hdd:plain-storages-1GiB-4GiB", hdd_big, False
     yield "path:hdd:missing-descriptor", expect_fail(lambda: hdd(Path(vm) / "nodesc.hdd")), True
     yield "path:hdd:unsupported-type", expect_fail(lambda: hdd(Path(vm) / "badtype.hdd")), True
     yield "path:hdd:unknown-guid", expect_fail(lambda: hdd(Path(vm) / "disk.hdd", "{99999999-0000-4000-8000-000000000000}")), True
@@ -563,7 +601,7 @@ def _census(case, ctx):
                         recv = ast.unparse(f.value) if isinstance(f, ast.Attribute) else ""
                         if isinstance(f, ast.Name) or any(k in recv.lower() for k in ("path", "root", "with_name", "candidate", "args.")):
                             openers.append((rel, fname, node.lineno, ast.unparse(node)[:80]))
-                            for a in list(node.args) + [k.value for k in node.keywords]:
+                            for a in [c for x in list(node.args) + [k.value for k in node.keywords] for c in ast.walk(x)]:
                                 if isinstance(a, ast.Constant) and isinstance(a.value, str) and a.value and set(a.value) <= set("rwbxat+U") \
                                         and any(c in a.value for c in "wax+"):
                                     modes.append((rel, fname, node.lineno, a.value))
